@@ -2,6 +2,7 @@ package model
 
 import (
 	"fmt"
+	"math"
 	"sort"
 	"strconv"
 	"strings"
@@ -26,8 +27,18 @@ func atomEq(a, b string) bool {
 	}
 	fa, ea := strconv.ParseFloat(a, 64)
 	fb, eb := strconv.ParseFloat(b, 64)
-	return ea == nil && eb == nil && (fa == fb || (fa != fa && fb != fb))
+	if ea != nil || eb != nil {
+		return false
+	}
+	if fa == 0 && fb == 0 && StrictZero {
+		return math.Signbit(fa) == math.Signbit(fb)
+	}
+	return fa == fb || (fa != fa && fb != fb)
 }
+
+// StrictZero: the implementation prints -0 and 0 differently (calibrated by
+// the checks), so the sign of a printed zero is compared too.
+var StrictZero bool
 
 // LineEq compares one printed line tolerantly: exact, or equal atom
 // sequences (multisets when the value holds an object), numbers by value.
